@@ -6,6 +6,18 @@ import time
 
 VERIF = os.path.dirname(os.path.dirname(os.path.abspath(__file__)))
 
+
+def evidence_dir():
+    """/verif/evidence for the registered commands; a scratch directory for self-test / seeded runs against a patched
+    copy of the repository (VERIF_SELFTEST), so that those never overwrite the evidence of the real tree."""
+    d = os.environ.get("VERIF_EVIDENCE_DIR")
+    if d:
+        return d
+    if os.environ.get("VERIF_SELFTEST"):
+        return os.path.join(VERIF, ".work", "ev-scratch-%d" % os.getpid())
+    return os.path.join(VERIF, "evidence")
+
+
 TRUSTED_BASE = [
     "rustc MIR construction (nightly 1.97.0, mir_promoted stage, dev profile: overflow checks + debug assertions on)",
     "mirdump driver (/verif/driver) faithfully serialises MIR, ADT tables, evaluated constants, impl tables",
@@ -86,7 +98,7 @@ class Report:
                 matched_known.append(v)
             else:
                 unknown.append(v)
-        vdir = os.path.join(VERIF, "evidence", "violations")
+        vdir = os.path.join(evidence_dir(), "violations")
         for v in matched_known:
             out_lines.append("KNOWN-FINDING: property=%s %s" % (self.prop, known_keys[v["key"]].get("what_fails", v["msg"])))
         replay_paths = []
@@ -176,8 +188,8 @@ class Report:
             "wall_s": round(time.time() - self.t0, 3),
             "violations": n_viol,
         }
-        os.makedirs(os.path.join(VERIF, "evidence"), exist_ok=True)
-        p = os.path.join(VERIF, "evidence", "%s.json" % self.prop)
+        os.makedirs(evidence_dir(), exist_ok=True)
+        p = os.path.join(evidence_dir(), "%s.json" % self.prop)
         tmp = p + ".tmp.%d" % os.getpid()
         with open(tmp, "w") as f:
             json.dump(ev, f, indent=1, default=str)
